@@ -499,6 +499,28 @@ pub open spec fn ca_roots(cs: Seq<Certificate>) -> Option<Seq<Root>> decreases c
                              'r.awaited() ==> connect_ok(is_https(uri), old(self).tls, r@)')])
     finally:
         vxlib.TLS.override = saved_ov
+    # ---- Request::peer_certs: what a handler asks for ----
+    RQ = 'tonic/src/request.rs'
+    u.raw('''
+// A-http-41: http::Extensions as a type map: get::<T>() is the entry stored under T, if any (only the entry this unit reads is modelled)
+pub struct TcpConnectInfo { pub id: Ghost<int> }
+pub struct Extensions { pub tls_info: Option<TlsConnectInfo<TcpConnectInfo>> }
+pub trait ExtItem: Sized { spec fn pick(e: Extensions) -> Option<Self>; }
+impl ExtItem for TlsConnectInfo<TcpConnectInfo> { open spec fn pick(e: Extensions) -> Option<Self> { e.tls_info } }
+impl Extensions {
+    #[verifier::external_body]
+    pub fn get<T: ExtItem>(&self) -> (r: Option<&T>) ensures r is Some <==> T::pick(*self) is Some, r matches Some(x) ==> T::pick(*self) == Some(*x) { unimplemented!() }
+}
+pub struct MetadataMap { pub id: Ghost<int> }
+''')
+    u.item(RQ, 'struct', 'Request')
+    u._emit('impl<T> Request<T> {'); u._open_header = 'impl<T> Request<T> {'
+    u.fn(RQ, 'extensions', within='impl<T> Request<T>', ensures=[Clause('Q0_the_extensions', '*r == self.extensions')])
+    u.fn(RQ, 'peer_certs', within='impl<T> Request<T>', sig_edits=[lambda t: t.sub_code('R12', r"CertificateDer<'static>", 'CertificateDer')],
+         closures={0: dict(params='i: &TlsConnectInfo<TcpConnectInfo>', ret='(x: Option<Arc<Vec<CertificateDer>>>)', ensures=['x == i.certs'])},
+         ensures=[Clause('Q1_the_handler_gets_the_certificates_recorded_for_the_connection',
+                         'r == (match self.extensions.tls_info { Some(i) => i.certs, None => None })')])
+    u.close('}')
     u.raw('''
 pub proof fn lemma_ca_roots_none(cs: Seq<Certificate>, k: int)
     requires 0 <= k <= cs.len()
